@@ -17,7 +17,7 @@ State = immutable structure; nodes are integers (position in `Model.nodes`, crea
 * Python object identity of nodes = equality of node ids.
 -/
 
-namespace Splipy
+namespace Splipy.MP
 
 /-- `TopologicalNode`. -/
 structure TNode where
@@ -312,4 +312,4 @@ def boundary (sm : SplineModel) : Option (List ℕ) :=
 
 end SplineModel
 
-end Splipy
+end Splipy.MP
